@@ -228,6 +228,8 @@ type Case struct {
 	// HonestStaging: every staged file was produced by a content-addressed
 	// store or written by the harness with matching content.
 	HonestStaging bool
+	// StoreDir is the root of the content-addressed store, when one is used.
+	StoreDir string
 }
 
 func encPaths(ps []string) string {
